@@ -46,11 +46,46 @@ def _work(i):
     return i, res
 
 
+def _linecov_start():
+    """dev aid (SYMX_LINECOV=<dir>): record which lines of /repo/cola a case executes (sys.monitoring), one json per process"""
+    d = os.environ.get("SYMX_LINECOV")
+    if not d:
+        return None
+    mon = sys.monitoring
+    tool = mon.COVERAGE_ID
+    hit = set()
+    try:
+        mon.use_tool_id(tool, "symx-linecov")
+    except ValueError:
+        pass
+
+    def on_line(code, line):
+        fn = code.co_filename
+        if "/cola/" in fn and "site-packages" not in fn:
+            hit.add((fn, line))
+        return mon.DISABLE
+
+    mon.register_callback(tool, mon.events.LINE, on_line)
+    mon.set_events(tool, mon.events.LINE)
+    return d, hit
+
+
+def _linecov_stop(st, tag):
+    if not st:
+        return
+    d, hit = st
+    os.makedirs(d, exist_ok=True)
+    with open(os.path.join(d, f"{tag}-{os.getpid()}.json"), "w") as f:
+        json.dump(sorted(hit), f)
+
+
 def _child(i, conn):
+    st = _linecov_start()
     try:
         res = _work(i)[1]
     except BaseException as e:  # noqa
         res = dict(paths=[], complete=False, stats={}, fns=[], error=f"{type(e).__name__}: {e}", smt={}, wall=0.0, case=CASES[i][0])
+    _linecov_stop(st, "case")
     try:
         conn.send(res)
     except BaseException as e:  # noqa
